@@ -92,6 +92,11 @@ int main() {
     if (cs.size() != 2) { printf("MultiSeparation + Distribution generated %zu constraints\n", cs.size()); bad++; }
     else { expect("multi-separation", cs[0], a1.variable, a2.variable, 30.0, false, &ms); expect("distribution", cs[1], a1.variable, a2.variable, 40.0, true, &dc); }
     cs.clear();
+    MultiSeparationConstraint mse(dim, 60.0, true); mse.addAlignmentPair(&a1, &a2);
+    mse.generateSeparationConstraints(dim, vs, cs, bbs);
+    if (cs.size() != 1) { printf("exact MultiSeparation generated %zu constraints\n", cs.size()); bad++; }
+    else expect("multi-separation (exact)", cs[0], a1.variable, a2.variable, 60.0, true, &mse);
+    cs.clear();
     // fixed-relative
     std::vector<unsigned> ids; ids.push_back(0); ids.push_back(2); ids.push_back(3);
     FixedRelativeConstraint fr(bbs, ids, false);
@@ -300,7 +305,8 @@ def jobs(tier):
                "(char *)o == (char *){T}->d + 8 * verif_visited").replace("{T}", this_vec)
         active = "1" if key == "fixedrelative" else "dim == CC(self)->_primaryDim"
         req = {"boundary": "((struct Boundary *)self)->variable != (void *)0", "alignment": "((struct Align *)self)->variable != (void *)0"}.get(key, "1")
-        extra_assigns = ", ((struct Distrib *)self)->cs.n" if key == "distribution" else ""
+        # the member list `cs` of the two kinds that keep one may be emptied before the loop (Distribution does; doing so in MultiSeparation is harmless)
+        extra_assigns = {"distribution": ", ((struct Distrib *)self)->cs.n", "multiseparation": ", ((struct MultiSep *)self)->cs.n"}.get(key, "")
         js.append(Job("%s_shell" % key, "U", spec, "h_shell",
                       cxx=(base + 'extern "C" { int verif_g_dim; void *verif_g_vars; void *verif_g_cs; void w_visit(void *, void *); }\n' +
                            vpsc_part + pre({mk: sdecl}) + "namespace cola {\n" + scode + "\n}\n" + swr),
